@@ -21,6 +21,20 @@ checks = [
  yata("C07", "Every replica has two real follower Docs fed by observe_update_v1/v2; TLC compares follower and leader state after every transaction (FollowerEqual) and checks EmitIffChanged.", TECH),
  yata("C15", "Replicas with GC on and off receive the same histories; convergence is evaluated modulo collected units, collected units must be tombstones (OnlyDeadCollected) and a GC-off replica collects nothing (GcOffKeepsAll); forced GC steps in random schedules.", TECH),
 ]
+# plugin modules (tools/*_pipe.py) may contribute their own entries
+import glob, importlib, sys
+sys.path.insert(0, os.path.join(V, "tools"))
+engines_extra = []
+for f in sorted(glob.glob(os.path.join(V, "tools", "*_pipe.py"))):
+    name = os.path.basename(f)[:-3]
+    if name == "yata_pipe":
+        continue
+    m_ = importlib.import_module(name)
+    if hasattr(m_, "manifest_entries"):
+        ents = m_.manifest_entries()
+        checks += ents
+        engines_extra.append({"name": name[:-5], "path": "tools/%s.py" % name, "serves_properties": sorted({e["property_id"] for e in ents}),
+                              "kind_free_text": getattr(m_, "ENGINE_TEXT", "TLA+/TLC design check + schedule replay on yrs + TLC trace validation")})
 claimed = {c["property_id"] for c in checks}
 NA = {
  "C10": "decoder totality on arbitrary bytes (no panic/abort/stack overflow/unbounded allocation) is not a property of an abstract state machine; a TLA+ model could only act as a byte generator, i.e. fuzzing - outside model-based verification (DESIGN.md section 7)",
@@ -34,7 +48,7 @@ m = {"version": 1,
                "baseline_off_cmd": "cd /repo && cargo test --workspace --no-fail-fast --offline",
                "source_commits": HOOK_COMMITS, "add_only": True},
      "engines": [{"name": "yata", "path": "spec/Yata.tla spec/MC_Yata.tla spec/Trace_Yata.tla harness/src/yata.rs tools/yata_pipe.py",
-                  "serves_properties": sorted(claimed), "kind_free_text": "TLA+/TLC design check + TLC-generated schedules executed on yrs + TLC trace validation"}],
+                  "serves_properties": sorted(c["property_id"] for c in checks if c.get("engine") == "yata"), "kind_free_text": "TLA+/TLC design check + TLC-generated schedules executed on yrs + TLC trace validation"}] + engines_extra,
      "checks": checks,
      "not_applicable": na,
      "notes": "Verdict policy, DRIFT vs VIOLATION, known findings: DESIGN.md section 5. known_findings.json lists fixed defects (fix: commits in /repo)."}
